@@ -81,7 +81,7 @@ pub enum Case {
 // strategies
 // ---------------------------------------------------------------------------------------------
 
-fn mutation_strategy() -> impl Strategy<Value = Mutation> {
+pub fn mutation_strategy() -> impl Strategy<Value = Mutation> {
     prop_oneof![
         3 => any::<u16>().prop_map(Mutation::DelTok),
         2 => any::<u16>().prop_map(Mutation::DupTok),
@@ -502,7 +502,7 @@ fn run_requests(c: &ReqCase, ctx: &RunCtx, o: &mut Outcome) {
             let params_json = pvals_to_json(&r.params);
             let step = inst::Step::Api { kind: match r.kind { 'q' => 0, 'm' => 1, _ => 2 }, text: r.text.clone(), params: params_json };
             let before = o.violations.len();
-            inst::run_steps(w, std::slice::from_ref(&step), o);
+            inst::run_steps(w, std::slice::from_ref(&step), o, &derive_text);
             if o.violations.len() == before && r.kind == 'm' {
                 // collect the ids the instance created (for later updates and deletions)
                 if let Ok(res) = w.rt.block_on(w.peer.query("query { zzprobe.P(first 1) { id } }", None)) {
@@ -530,6 +530,30 @@ fn pvals_to_json(p: &[(String, PVal)]) -> String {
     serde_json::Value::Object(m).to_string()
 }
 
+/// text for `inst::Step::Derived`: derived from the grammar of the target against the model of the
+/// instance world
+fn derive_text(target: u8, dna: &[u8], muts: &[Mutation]) -> String {
+    let g = grammars();
+    let mut pools = Pools::default();
+    for e in ["app.Item", "app.Note", "zzprobe.P", "sys.Room", "sys.Peer"] {
+        pools.entities.push(e.to_string());
+    }
+    for f in ["name", "n", "data", "parent", "kids", "text", "bin", "id", "room_id", "cdate", "mdate", "sys_room", "sys_peer"] {
+        pools.fields.push(f.to_string());
+    }
+    for s in KEYWORDS.iter().chain(DIGIT_FIRST.iter()).chain(UNICODE.iter()) {
+        pools.odd.push(s.to_string());
+    }
+    let (gr, start) = match target % 4 {
+        0 => (&g.model, "datamodel"),
+        1 => (&g.query, "query"),
+        2 => (&g.mutation, "mutation"),
+        _ => (&g.deletion, "deletion"),
+    };
+    let tokens = pest_gen::derive(gr, start, dna, &pools);
+    pest_gen::apply_mutations(&tokens, muts)
+}
+
 fn run_instance(steps: &[inst::Step], ctx: &RunCtx, o: &mut Outcome) {
     let _ = shared::take_panics();
     let mut w = match inst::World::start(ctx.case_dir("inst"), inst::APP_MODEL) {
@@ -539,7 +563,7 @@ fn run_instance(steps: &[inst::Step], ctx: &RunCtx, o: &mut Outcome) {
             return;
         }
     };
-    inst::run_steps(&mut w, steps, o);
+    inst::run_steps(&mut w, steps, o, &derive_text);
     o.count("instance_restarts", w.restarts);
     o.nontrivial = o.counters.get("wire_queries_served").copied().unwrap_or(0) > 0
         || o.labels.iter().any(|l| l.starts_with("row:") || l.starts_with("invite:accepted") || l.starts_with("verify_hash"));
@@ -710,7 +734,7 @@ fn run_bomb(b: &BombCase, o: &mut Outcome) {
         match child.try_wait() {
             Ok(Some(_)) => break,
             Ok(None) => {
-                if start.elapsed() > std::time::Duration::from_secs(20) {
+                if start.elapsed() > std::time::Duration::from_secs(30) {
                     timed_out = true;
                     let _ = child.kill();
                     break;
@@ -729,6 +753,12 @@ fn run_bomb(b: &BombCase, o: &mut Outcome) {
     };
     let stdout = String::from_utf8_lossy(&out.stdout).to_string();
     let stderr = String::from_utf8_lossy(&out.stderr).to_string();
+    if timed_out && !(b.target % 5 == 1 && b.shape % 4 == 0) {
+        // only the shape whose SQL doubles with every level is expected to run out of time: on
+        // a loaded machine anything else that times out is not evidence
+        o.discard = Some("bomb-timeout".into());
+        return;
+    }
     if timed_out || stderr.contains("memory allocation") {
         o.violation(
             format!("resource-exhaustion@bomb.{}", shape),
@@ -736,7 +766,7 @@ fn run_bomb(b: &BombCase, o: &mut Outcome) {
                 "a {} byte text (nesting depth {}) {} : {}",
                 text.len(),
                 b.depth,
-                if timed_out { "was not answered within 20 s" } else { "needed more than 3 GB" },
+                if timed_out { "was not answered within 30 s" } else { "needed more than 3 GB" },
                 short(&text)
             ),
         );
@@ -780,7 +810,7 @@ impl Property for C14 {
 
     fn plan(tier: Tier) -> Plan {
         match tier {
-            Tier::Quick => Plan { shards: 16, cases_per_shard: 260, max_shrink_iters: 300 },
+            Tier::Quick => Plan { shards: 16, cases_per_shard: 220, max_shrink_iters: 300 },
             Tier::Thorough => Plan { shards: 16, cases_per_shard: 6000, max_shrink_iters: 600 },
         }
     }
@@ -1032,7 +1062,7 @@ fn write_replays(dir: &str) {
         ("reserved-word-as-alias", art(&format!("{}\0query {{ order : Person {{ name }} }}", m))),
         ("reserved-word-as-field-name", art("{ Person { name: String, group: Person nullable } }\0query { Person { name group { name } } }")),
         ("digit-first-alias", art(&format!("{}\0query {{ 1 : Person {{ name }} }}", m))),
-        ("alias-made-of-dots", art(&format!("{}\0query {{ . : Person {{ name }} }}", m))),
+        ("alias-starting-with-a-dot", art(&format!("{}\0query {{ . : Person {{ name }} }}", m))),
         ("skip-without-first", art(&format!("{}\0query {{ Person (skip 1) {{ name }} }}", m))),
         ("json-field-default", art("{ Person { name: String, data: Json default \"{}\" } }\0query { Person { d : data->$ } }")),
         ("non-finite-float-literal", art("{ Person { w: Float nullable } }\0query { Person (w > 1.0e999) { w } }")),
